@@ -157,10 +157,69 @@ def splitHint (ws : List String) : List String × List String :=
   let i := ws.idxOf "##"
   (ws.take i, ws.drop (i + 1))
 
+/-! ### `mode=db`: the C07 trace driver plus the compactor model at every compaction step -/
+
+structure DbSt where
+  c07 : Driver.C07.St := {}
+  comp : Compactor := {}
+  /-- oracle token, level list and compactor state at the moment the real `Compact` ran -/
+  begun : Option (String × Levels × Compactor) := none
+  unsafeSeen : Bool := false
+
+def stripExtras (hint : List String) : List String × List String :=
+  (hint.filter (fun w => !(w.startsWith "o=" || w.startsWith "cur=")),
+   hint.filter (fun w => w.startsWith "o=" || w.startsWith "cur="))
+
+def stepDB (st : DbSt) (ws : List String) : DbSt × String :=
+  let (op, hint) := splitHint ws
+  match op, hint with
+  | ["chk"], _ => (st, if st.unsafeSeen then "not-safe-change-set-seen" else "safe")
+  | ["bg", "c"], "compactidle" :: rest =>
+    let o := (field "o=" rest).getD ""
+    let (pcs, comp') := compact st.comp st.c07.s.levels (parseOracle ("o=" ++ o) [])
+    let (c07', out) := Driver.C07.step st.c07 ["bg", "c", "##", "compactidle"]
+    let st' := { st with c07 := c07', comp := comp' }
+    (st', if pcs.isNone then joinWith " " ([out, "o=" ++ o, "cur=" ++ toString comp'.minorLevel])
+          else out ++ " pick-mismatch model=" ++ showCS pcs comp'.minorLevel)
+  | ["bg", "c"], "compactbegin" :: rest =>
+    let o := (field "o=" rest).getD ""
+    let (c07', out) := Driver.C07.step st.c07 ["bg", "c", "##", "compactbegin"]
+    -- the cursor after the real call is predicted without knowing where `WriteRun` cuts
+    let (pcs, comp') := compact st.comp st.c07.s.levels (parseOracle ("o=" ++ o) [])
+    let st' := { st with c07 := c07', begun := some ("o=" ++ o, st.c07.s.levels, st.comp) }
+    (st', if pcs.isSome then joinWith " " ([out, "o=" ++ o, "cur=" ++ toString comp'.minorLevel])
+          else out ++ " pick-mismatch model=none")
+  | ["bg", "c"], "compact" :: lv :: rest =>
+    let rm := Driver.C07.parseIds ((field "rm=" rest).getD "-")
+    let addS := (field "add=" rest).getD "none"
+    let runs := if addS == "none" then [] else (addS.splitOn "|").map Driver.C07.parseRun
+    let l := natOr (lv.drop 1).toString
+    let real : ChangeSet := { rm := rm, lvl := l, add := runs }
+    -- the model's pick on the snapshot the real compactor saw
+    let (pred, comp') := match st.begun with
+      | some (o, lv0, c0) => compact c0 lv0 (parseOracle o (runs.map (·.length)))
+      | none => (none, st.comp)
+    let s := st.c07.s
+    let safeNow := safeCS s.levels rm l runs && decide (SafeCS s.levels rm l runs)
+    let c07' : Driver.C07.St :=
+      match Driver.C07.applyActs st.c07 [.compact rm l runs] with
+      | some x => x
+      | none => { st.c07 with s := { s with levels := addAt (removeIds rm s.levels) l (mkTables s.nextId runs),
+                                            nextId := s.nextId + runs.length } }
+    let st' := { st with c07 := c07', comp := comp', begun := none, unsafeSeen := st.unsafeSeen || !safeNow }
+    let realS := showCS (some real) comp'.minorLevel
+    let predS := showCS pred comp'.minorLevel
+    let lineReal := "compact L" ++ toString l ++ " rm=" ++ ((field "rm=" rest).getD "-") ++ " add=" ++ addS ++
+      " cur=" ++ toString comp'.minorLevel
+    (st', if realS == predS then lineReal else lineReal ++ " pick-mismatch model=" ++ predS)
+  | _, _ =>
+    let (c07', out) := Driver.C07.step st.c07 ws
+    ({ st with c07 := c07' }, out)
+
 def handle (lines : Array String) (i : Nat) (out : Array String) : Nat × Array String :=
   let hdr := if i ≥ 1 then words (lines[i - 1]!) else []
   if hdr.contains "mode=db" then
-    Driver.C07.handle lines i out
+    runLines stepDB ({} : DbSt) lines i out
   else
     runLines (fun st ws => let (op, hint) := splitHint ws; stepDirect (ensureInit st hdr) op hint) ({} : St) lines i out
 
